@@ -74,4 +74,25 @@ theorem mem_dSet {k : Nat} {v : α} : ∀ {l : List (Nat × α)} {e : Nat × α}
         · exact Or.inl h
         · exact Or.inr (List.mem_cons_of_mem _ h)
 
+theorem mem_dSet_of_ne {k : Nat} {v : α} : ∀ {l : List (Nat × α)} {e : Nat × α}, e ∈ l → e.1 ≠ k →
+    e ∈ dSet k v l
+  | [], _, h, _ => by simp at h
+  | (k', v') :: t, e, h, hne => by
+    unfold dSet
+    rcases List.mem_cons.mp h with h | h
+    · subst h
+      have : k' ≠ k := hne
+      simp [this]
+    · split
+      · exact List.mem_cons_of_mem _ h
+      · exact List.mem_cons_of_mem _ (mem_dSet_of_ne h hne)
+
+theorem dGet_append_of_not_mem {k : Nat} : ∀ {a b : List (Nat × α)}, (∀ e ∈ a, e.1 ≠ k) →
+    dGet k (a ++ b) = dGet k b
+  | [], _, _ => rfl
+  | (k', v') :: t, b, h => by
+    have hk : k' ≠ k := h (k', v') List.mem_cons_self
+    simp only [List.cons_append, dGet, hk, if_false]
+    exact dGet_append_of_not_mem (fun e he => h e (List.mem_cons_of_mem _ he))
+
 end Txdbus.Calls
